@@ -1,100 +1,102 @@
-import XPathV.Generated.ExtraFacts
-import XPathV.Model.Api
-import XPathV.Lemmas.Facts
+import XPathV.Lemmas.C09Base
+import XPathV.Lemmas.StringFns
 /-!
-# C09 — string functions compute the XPath result on their arguments
+# C09 — string functions compute the XPath result on their arguments (property-level theorems)
+
+`Lemmas/C09Base.lean` (same namespace) holds the `substring` theorems (the set of positions,
+never fails, is a sublist) and the T0 theorems; `Lemmas/StringFns/*` one theorem per function of
+the property, the node-set-argument rule, `normalize-space`, and the induction over nested calls.
+
+`Agrees m s` : the oracle returns a value `v` and the engine returns the same value.
 -/
 namespace XPathV.Theorems.C09
-open XPathV XPathV.Model XPathV.Facts NumAlg
-
-/-- T0 (F3): each string function's arity window in `processFunction` -/
-theorem string_function_arities :
-    (Generated.funcTable.filter (fun e => e.names.any (fun n => ["concat", "contains", "starts-with", "ends-with",
-        "substring", "substring-before", "substring-after", "string-length", "normalize-space", "translate",
-        "lower-case", "string-join"].contains n))).map (fun e => (e.names, e.minArgs, e.maxArgs)) =
-    [(["lower-case"], 1, none), (["starts-with"], 2, none), (["ends-with"], 2, none), (["contains"], 2, none),
-     (["substring"], 2, none), (["substring-before", "substring-after"], 2, some 2), (["string-length"], 1, none),
-     (["normalize-space"], 0, none), (["translate"], 3, some 3), (["concat"], 2, none), (["string-join"], 2, some 2)] := by decide
+open XPathV XPathV.Model XPathV.Facts XPathV.StringFns NumAlg
 
 variable {F : Type} [NumAlg F]
 
-/-- three-argument substring: exactly the characters at the positions `p` with
-`round(start) ≤ p < round(start) + round(length)` -/
-theorem substring3_spec (m : String) (start len : F) :
-    substringM m start (some len) = Spec.fnSubstring3 m start len := by
-  unfold substringM Spec.fnSubstring3 Spec.xround
-  rfl
+/-- **C09, one function at a time, string-typed arguments**: all thirteen functions of the
+property (substring with 2 and 3 arguments; `normalize-space` on strings on which Go's and XML's
+whitespace coincide), for every document, context and configuration -/
+theorem C09_each_function (d : Doc) (cfg : ECfg) (fi : Plan) (c : Ref) (asel : Option (List Ref))
+    (ctx : Spec.Ctx) (a b s : String) (x y : F) (ss : List String) (h2 : 2 ≤ ss.length) (l : List Ref)
+    (hp : ∀ ch ∈ a.toList, Model.isSpace ch = Spec.isXmlSpace ch) :
+    Agrees (F := F) (callFn d cfg "concat" fi c (ss.map (fun s => .ok (.str s))) asel)
+      (Spec.callFn d ctx "concat" (ss.map .str)) ∧
+    Agrees (F := F) (callFn d cfg "contains" fi c [.ok (.str a), .ok (.str b)] asel)
+      (Spec.callFn d ctx "contains" [.str a, .str b]) ∧
+    Agrees (F := F) (callFn d cfg "starts-with" fi c [.ok (.str a), .ok (.str b)] asel)
+      (Spec.callFn d ctx "starts-with" [.str a, .str b]) ∧
+    Agrees (F := F) (callFn d cfg "ends-with" fi c [.ok (.str a), .ok (.str b)] asel)
+      (Spec.callFn d ctx "ends-with" [.str a, .str b]) ∧
+    Agrees (F := F) (callFn d cfg "substring-before" fi c [.ok (.str a), .ok (.str b)] asel)
+      (Spec.callFn d ctx "substring-before" [.str a, .str b]) ∧
+    Agrees (F := F) (callFn d cfg "substring-after" fi c [.ok (.str a), .ok (.str b)] asel)
+      (Spec.callFn d ctx "substring-after" [.str a, .str b]) ∧
+    Agrees (F := F) (callFn d cfg "substring" fi c [.ok (.str a), .ok (.num x)] asel)
+      (Spec.callFn d ctx "substring" [.str a, .num x]) ∧
+    Agrees (F := F) (callFn d cfg "substring" fi c [.ok (.str a), .ok (.num x), .ok (.num y)] asel)
+      (Spec.callFn d ctx "substring" [.str a, .num x, .num y]) ∧
+    Agrees (F := F) (callFn d cfg "string-length" fi c [.ok (.str a)] asel)
+      (Spec.callFn d ctx "string-length" [.str a]) ∧
+    Agrees (F := F) (callFn d cfg "normalize-space" fi c [.ok (.str a)] asel)
+      (Spec.callFn d ctx "normalize-space" [.str a]) ∧
+    Agrees (F := F) (callFn d cfg "translate" fi c [.ok (.str s), .ok (.str a), .ok (.str b)] asel)
+      (Spec.callFn d ctx "translate" [.str s, .str a, .str b]) ∧
+    Agrees (F := F) (callFn d cfg "lower-case" fi c [.ok (.str a)] asel)
+      (Spec.callFn d ctx "lower-case" [.str a]) ∧
+    Agrees (F := F) (callFn d cfg "string-join" fi c [.ok (.nodes l), .ok (.str b)] asel)
+      (Spec.callFn d ctx "string-join" [.nodes l, .str b]) ∧
+    Agrees (F := F) (callFn d cfg "string" fi c [.ok (.str a)] asel) (Spec.callFn d ctx "string" [.str a]) :=
+  ⟨fn_concat_spec d cfg fi c asel ctx ss h2, fn_contains_spec d cfg fi c asel ctx a b,
+   fn_starts_with_spec d cfg fi c asel ctx a b, fn_ends_with_spec d cfg fi c asel ctx a b,
+   fn_substring_before_spec d cfg fi c asel ctx a b, fn_substring_after_spec d cfg fi c asel ctx a b,
+   fn_substring2_spec d cfg fi c asel ctx a x, fn_substring3_spec d cfg fi c asel ctx a x y,
+   fn_string_length_spec d cfg fi c asel ctx a, fn_normalize_space_spec d cfg fi c asel ctx a hp,
+   fn_translate_spec d cfg fi c asel ctx s a b, fn_lower_case_spec d cfg fi c asel ctx a,
+   fn_string_join_spec d cfg fi c asel ctx l b, fn_string_spec d cfg fi c asel ctx (.str a)⟩
 
-theorem substring2_spec (m : String) (start : F) :
-    substringM m start none = Spec.fnSubstring2 m start := by
-  unfold substringM Spec.fnSubstring2 Spec.xround
-  rfl
+/-- `string(v)` for a value of any type, and `string()` of the context node -/
+theorem C09_string_any (d : Doc) (cfg : ECfg) (fi : Plan) (c : Ref) (asel : Option (List Ref))
+    (ctx : Spec.Ctx) (v : Spec.Value F) :
+    Agrees (F := F) (callFn d cfg "string" fi c [.ok (Theorems.C08.emb v)] asel) (Spec.callFn d ctx "string" [v]) ∧
+    Agrees (F := F) (callFn d cfg "string" fi ctx.node [] asel) (Spec.callFn d ctx "string" []) :=
+  ⟨fn_string_spec d cfg fi c asel ctx v, fn_string0_spec d cfg fi asel ctx⟩
 
-/-- `substring` never fails: the model has explicit crash outcomes and produces none here, for
-every string and every (finite or not) start and length -/
-theorem substring_never_fails (d : Doc) (cfg : ECfg) (c : Ref) (m : String) (s l : F) :
-    callFn (F := F) d cfg "substring" .nil c [.ok (.str m), .ok (.num s), .ok (.num l)] none
-      = .ok (.str (Spec.fnSubstring3 m s l)) := by
-  simp [callFn, bind, Except.bind, substring3_spec]
+/-- **node-set arguments**: a node list in first position stands for the string-value of its
+first node (`""` when empty), exactly as the oracle's `string()` conversion -/
+theorem C09_nodeset_argument (d : Doc) (cfg : ECfg) (fi : Plan) (c : Ref) (asel : Option (List Ref))
+    (name : String) (hn : name ∈ firstArgFns) (l : List Ref) (rest : List (Except EErr (MVal F)))
+    (hr : RestOk name rest) :
+    callFn (F := F) d cfg name fi c (.ok (.nodes l) :: rest) asel
+      = callFn d cfg name fi c (.ok (.str (Spec.toStr (F := F) d (.nodes l))) :: rest) asel :=
+  nodeset_arg_is_first d cfg fi c asel name hn l rest hr
 
-/-- the result is a subsequence of the argument -/
-theorem substring_is_sublist (m : String) (s l : F) :
-    (Spec.fnSubstring3 m s l).toList.Sublist m.toList := by
-  unfold Spec.fnSubstring3
-  simp only [String.toList_ofList]
-  have : ∀ (xs : List Char) (k : Nat) (p : Char × Nat → Option Char), (∀ c i o, p (c, i) = some o → o = c) →
-      ((xs.zipIdx k).filterMap p).Sublist xs := by
-    intro xs
-    induction xs with
-    | nil => intro k p _; simp
-    | cons x t ih =>
-      intro k p hp
-      simp only [List.zipIdx_cons, List.filterMap_cons]
-      cases hpx : p (x, k) with
-      | none => exact (ih (k+1) p hp).cons _
-      | some o => rw [hp x k o hpx]; exact (ih (k+1) p hp).cons_cons _
-  apply this
-  intro c i o h
-  split at h <;> simp_all
+/-- `normalize-space`: Go's `unicode.IsSpace`/`TrimSpace` loop equals the XML-whitespace collapse
+on every string on which the two notions of whitespace coincide (in particular all ASCII strings
+without \v and \f) -/
+theorem C09_normalize_space (s : String) (h : ∀ c ∈ s.toList, Model.isSpace c = Spec.isXmlSpace c) :
+    normalizeSpaceM s = Spec.fnNormalizeSpace s :=
+  normalizeSpace_spec s h
 
-theorem contains_spec (d : Doc) (cfg : ECfg) (c : Ref) (a b : String) :
-    callFn (F := F) d cfg "contains" .nil c [.ok (.str a), .ok (.str b)] none = .ok (.bool (Spec.fnContains a b)) := by
-  simp [callFn, bind, Except.bind]
+/-- **C09, nested to any depth, through the builder**: every expression of `StrE` (string
+literals; concat, substring-before/after, substring, normalize-space, translate, lower-case,
+string over such expressions) evaluates, via the plan the builder makes, to the string the
+oracle gives — at `evalP`, at the public `Evaluate`, and against the top-level oracle -/
+theorem C09_nested (e : Ast) (h : StrE e) (d : Doc) (cfg : ECfg) (c : Ref)
+    (regexOk : RegexOk) (limit : Nat) (sn sd : Bool) (st : BState) (o : BOut)
+    (hb : build regexOk limit sn sd e {} st = .ok o) :
+    ∃ s, evalP (F := F) d cfg o.q c = .ok (.str s) ∧
+      evaluate (F := F) d cfg o.q c = .ok (.str s) ∧
+      Spec.eval (F := F) d e ⟨c, 1, 1⟩ = .ok (.val (.str s) none) ∧
+      Spec.evalTop (F := F) d e c = .ok (.str s) :=
+  strE_sem e h d cfg c regexOk limit sn sd st o hb
 
-theorem starts_with_spec (d : Doc) (cfg : ECfg) (c : Ref) (a b : String) :
-    callFn (F := F) d cfg "starts-with" .nil c [.ok (.str a), .ok (.str b)] none = .ok (.bool (Spec.fnStartsWith a b)) := by
-  simp [callFn, bind, Except.bind]
-
-theorem substring_after_spec (d : Doc) (cfg : ECfg) (c : Ref) (a b : String) :
-    callFn (F := F) d cfg "substring-after" .nil c [.ok (.str a), .ok (.str b)] none = .ok (.str (Spec.fnSubstringAfter a b)) := by
-  simp [callFn, bind, Except.bind]
-
-theorem substring_before_spec (d : Doc) (cfg : ECfg) (c : Ref) (a b : String) :
-    callFn (F := F) d cfg "substring-before" .nil c [.ok (.str a), .ok (.str b)] none = .ok (.str (Spec.fnSubstringBefore a b)) := by
-  simp [callFn, bind, Except.bind]
-
-theorem translate_spec (d : Doc) (cfg : ECfg) (c : Ref) (s a b : String) :
-    callFn (F := F) d cfg "translate" .nil c [.ok (.str s), .ok (.str a), .ok (.str b)] none = .ok (.str (Spec.fnTranslate s a b)) := by
-  simp [callFn, bind, Except.bind, asStringM]
-
-theorem string_length_spec (d : Doc) (cfg : ECfg) (c : Ref) (s : String) :
-    callFn (F := F) d cfg "string-length" .nil c [.ok (.str s)] none = .ok (.num (ofNat s.length)) := by
-  simp [callFn, bind, Except.bind]
-
-/-- a node-set argument is taken as the string-value of its first node, the empty set as "" -/
-theorem nodeset_argument_first (d : Doc) (cfg : ECfg) (c : Ref) (r : Ref) (rest : List Ref) (b : String) :
-    callFn (F := F) d cfg "contains" .nil c [.ok (.nodes (r :: rest)), .ok (.str b)] none
-      = .ok (.bool (Spec.fnContains (stringValue d r) b)) := by
-  simp [callFn, bind, Except.bind]
-
-theorem nodeset_argument_empty (d : Doc) (cfg : ECfg) (c : Ref) (b : String) :
-    callFn (F := F) d cfg "contains" .nil c [.ok (.nodes []), .ok (.str b)] none
-      = .ok (.bool (Spec.fnContains "" b)) := by
-  simp [callFn, bind, Except.bind]
-
-/-- T0: the bounds `substringFunc` computes are the ones `substringM` models:
-`first = floor(start+0.5)`, `last = first + floor(length+0.5)` (or +Inf), clipped to `[1, len+1]` -/
-theorem substring_bounds_source_ok : Generated.substringBoundsSrc =
-    ["first:=math.Floor(start+0.5)", "last:=math.Inf(1)", "last=first+math.Floor(length+0.5)", "first=1", "last=float64(len(m)+1)"] := rfl
+/-- … and the builder does accept it whenever the nesting fits the depth limit (non-vacuity of
+`C09_nested` for every member of the fragment) -/
+theorem C09_nested_total (e : Ast) (h : StrE e) (d : Doc) (cfg : ECfg) (c : Ref)
+    (regexOk : RegexOk) (limit : Nat) (sn sd : Bool) (st : BState) (hd : st.depth + ht e ≤ limit) :
+    ∃ o s, build regexOk limit sn sd e {} st = .ok o ∧
+      evaluate (F := F) d cfg o.q c = .ok (.str s) ∧ Spec.evalTop (F := F) d e c = .ok (.str s) :=
+  strE_total e h d cfg c regexOk limit sn sd st hd
 
 end XPathV.Theorems.C09
